@@ -232,6 +232,33 @@ class MemoryView:
     def __init__(self, snapshot):
         self.snapshot = snapshot
 
+    def sa_max(self, **kw):
+        return MemoSym("max(memo keys)", self.snapshot)
+
+    def sa_min(self, **kw):
+        return MemoSym("min(memo keys)", self.snapshot)
+
+
+class MemoSym:
+    """A memo-derived quantity other than len(memo): symbolic, never equal to the key MEMOIZE writes unless the base's
+    keys happen to be dense."""
+
+    sa_symbolic = True
+
+    def __init__(self, text, snapshot):
+        self.text, self.snapshot = text, snapshot
+
+    def __add__(self, o):
+        return MemoSym(f"{self.text} + {o!r}", self.snapshot)
+
+    __radd__ = __add__
+
+    def __sub__(self, o):
+        return MemoSym(f"{self.text} - {o!r}", self.snapshot)
+
+    def __repr__(self):
+        return self.text
+
 
 # ------------------------------------------------------------------ symbolic VM over tokens (pickletools effects)
 class VMError(Exception):
@@ -304,6 +331,8 @@ def run_tokens(tokens: List[Tok], by_name) -> Dict[str, Any]:
             memo[("len", tuple(executed))] = stack[-1]
         elif op in ("GET", "BINGET", "LONG_BINGET"):
             k = t.arg
+            if isinstance(k, MemoSym):
+                raise VMError(f"GET reads the key `{k.text}` (of a symbolic run of the base); the value was saved by MEMOIZE, which writes at len(memo): the two differ whenever the base pickle's memo keys are not 0..n-1 (assembler programs, Python-2 pickles with BINPUT 1, 2, ...)")
             if isinstance(k, MemoLen):
                 snap = [x for x in k.snapshot if x != "STOP"]
                 key = ("len", tuple(snap))
